@@ -2,6 +2,8 @@
 # usage: tools/verify_seeded.sh <ID> <k> <patch.diff> <demo_test.go> <notes.md> [check-id]
 # Confirms in a scratch copy of /repo (HEAD): the patch applies, the full suite passes with it, the demo fails with it
 # and passes without it, and the named check reports a violation. Then stores it under /verif/seeded/<ID>-<k>/.
+# Precondition: the named check is silent on the unchanged tree (its VIOLATION lines are counted as detections);
+# tools/recheck_seeded.sh re-runs every stored change later and exposes a detection that was not one.
 set -u
 ID=$1; K=$2; PATCH=$(readlink -f "$3"); DEMO=$(readlink -f "$4"); NOTES=$(readlink -f "$5"); CHECK=${6:-$ID}
 V=/verif
